@@ -237,8 +237,8 @@ def branch_programs():
     out = []
     add = lambda src, **kw: out.append(dict({"src": src, "opts": dict(ALL_ON)}, **kw))
     add("A = 9223372036854775807\nB = -9223372036854775807 - 1\nC = 9223372036854775808\nD = -9223372036854775809\nE = 1 << 200\nF = %s\ntrace(A, B, C, D, E, F)\n" % ("7" * 400))
-    add("A = 0.0\nB = -0.0\nC = 5e-324\nD = 1.7976931348623157e308\nE = 1e309 if False else 0.5\nF = 2.5e-310\ntrace(A, B, C, D, E, F, float('nan'), float('inf'))\n")
-    add('A = b""\nB = b"\\x00\\x01\\xfe\\xff"\nC = b"\\xc3\\x28"\nD = "\\xc3\\xa9" if False else "x"\nE = b"text" + b"\\x80"\ntrace(A, B, C, D, E, str(B), "%r" % B)\n')
+    add("A = 0.0\nB = -0.0\nC = 5e-324\nD = 1.7976931348623157e308\nE = 0.5\nF = 2.5e-310\ntrace(A, B, C, D, E, F, float('nan'), float('inf'))\n")
+    add('A = b""\nB = b"\\x00\\x01\\xfe\\xff"\nC = b"\\xc3\\x28"\nD = "\\u00e9"\nE = b"text" + b"\\x80"\ntrace(A, B, C, D, E, str(B), "%r" % B)\n')
     add('A = ""\nB = "\\x00"\nC = "\\u00e9\\U0001F600"\nD = "a" * 3\nE = A + B + C\ndef f():\n    """\\u00e9 doc \\x00 nul"""\n    return [A, B, C]\ntrace(f(), E)\n')
     add("def f(a, b=1, *args, c, d=2, **kw):\n    return (a, b, args, c, d, kw)\ndef g(*, k):\n    return k\ndef h(*a, **k):\n    return (a, k)\ndef i(x, *, y=3):\n    return x + y\n"
         "trace(f(0, c=9), f(1, 2, 3, 4, c=5, d=6, e=7), g(k=1), h(1, 2, z=3), i(1), i(1, y=2))\n")
